@@ -4,7 +4,8 @@ mkdir -p /tmp/vw
 cd /verif && python3 -c "
 import sys
 from vt.build import build
-b=build('/repo','/verif/unit')
+import os
+b=build(os.environ.get('VERIF_REPO','/repo'), os.environ.get('VERIF_UNIT','/verif/unit'))
 open('/tmp/vw/u.rs','w').write(b.text)
 " || exit 2
 cd /tmp/vw && verus u.rs --multiple-errors 20 "$@" 2>&1 | grep -v '^$' | tail -${TAIL:-80}
